@@ -98,6 +98,10 @@ impl<T: CliWrapper> CliWrapperImpl for T {
     }
 
     fn try_create() -> Result<PasFmtConfiguration<Self::Config>, CliError> {
+        #[cfg(pasfmt_verif)]
+        if let Some(argv) = crate::verif_seam::argv() {
+            return Self::try_parse_from(argv).map_err(CliError::Clap)?.validate();
+        }
         Self::try_parse().map_err(CliError::Clap)?.validate()
     }
 
